@@ -1,0 +1,76 @@
+//go:build verif
+
+// Contracts for package jhttp, read by the gvc verifier in /verif (build tag
+// "verif"). No code here: only the package clause and //@ lines.
+
+package jhttp
+
+// ---------------------------------------------------------------------------
+// Query value typing (C19)
+// ---------------------------------------------------------------------------
+
+// The documented value grammar, written from the documentation of ParseQuery:
+//   double-quoted  -> JSON string      dquoted(s)
+//   number         -> [+-]?digits(.digits)?; numberCharset(s) is its character
+//                     set (sign only in front, digits and '.' elsewhere)
+//   single-quoted  -> base64 bytes     squoted(s)
+//@ pure dquoted(s Str) Bool = len(s) >= 2 && s[0] == '"' && s[len(s) - 1] == '"'
+//@ pure squoted(s Str) Bool = len(s) >= 2 && s[0] == '\'' && s[len(s) - 1] == '\''
+//@ pure isDigit(c Int) Bool = 48 <= c && c <= 57
+//@ pure numberCharset(s Str) Bool = len(s) > 0 && forall(k int, 0 <= k && k < len(s) ==> isDigit(s[k]) || s[k] == '.' || (k == 0 && (s[k] == '+' || s[k] == '-')))
+
+//@ func isDecimal
+//@   ensures[C19:charset] result ==> numberCharset(s)
+//@   ensures[C19:digits] (len(s) > 0 && forall(k int, 0 <= k && k < len(s) ==> isDigit(s[k]))) ==> result
+//@   loop 1 invariant 0 <= i && i <= len(s) && 0 <= n && n <= i && (n == 0 ==> i <= 1)
+//@   loop 1 invariant forall(k int, 0 <= k && k < i ==> isDigit(s[k]) || (k == 0 && (s[k] == '+' || s[k] == '-')))
+//@   loop 1 invariant forall(k int, i - n <= k && k < i ==> isDigit(s[k]))
+//@   loop 1 invariant i - n <= 1 && (i - n == 1 ==> s[0] == '+' || s[0] == '-')
+//@   loop 1 decreases len(s) - i
+//@   loop 2 invariant 1 <= i && i <= len(s) && 0 <= n && n <= i
+//@   loop 2 invariant forall(k int, 0 <= k && k < i ==> isDigit(s[k]) || s[k] == '.' || (k == 0 && (s[k] == '+' || s[k] == '-')))
+//@   loop 2 decreases len(s) - i
+
+// A value is typed as a number only if it has number syntax, and the number is
+// always representable in JSON (never NaN or an infinity).
+//@ func parseNumber
+//@   ensures[C19:number-syntax] result1 ==> numberCharset(s)
+//@   ensures[C19:number-marshalable] result1 ==> marshalable(result0) && (typeis(result0, "int64") || typeis(result0, "float64"))
+//@   ensures[C19:not-number] !result1 ==> result0 == nil
+//@   ensures[C19:decimal-value] result1 && typeis(result0, "int64") ==> decimalOf(s, unboxas(result0, "int64"))
+
+//@ func parseJSONString
+//@   ensures[C19:string-only-quoted] result1 ==> dquoted(s) && result2 == nil
+//@   ensures[C19:quoted-decided] dquoted(s) ==> result1 || result2 != nil
+//@   ensures[C19:stray-quote] !dquoted(s) && len(s) > 0 && (s[0] == '"' || s[len(s) - 1] == '"') ==> result2 != nil && !result1
+//@   ensures[C19:not-string] !dquoted(s) && !(len(s) > 0 && (s[0] == '"' || s[len(s) - 1] == '"')) ==> !result1 && result2 == nil
+
+//@ func parseConstant
+//@   ensures[C19:true] s == "true" ==> result1 && result0 == boxof(true, "bool")
+//@   ensures[C19:false] s == "false" ==> result1 && result0 == boxof(false, "bool")
+//@   ensures[C19:null] s == "null" ==> result1 && result0 == nil
+//@   ensures[C19:other] s != "true" && s != "false" && s != "null" ==> !result1 && result0 == nil
+
+//@ func parseQuoted64
+//@   ensures[C19:bytes-only-quoted] result1 ==> squoted(s) && result2 == nil
+//@   ensures[C19:squoted-decided] squoted(s) ==> result1 || result2 != nil
+//@   ensures[C19:stray-squote] !squoted(s) && len(s) > 0 && (s[0] == '\'' || s[len(s) - 1] == '\'') ==> result2 != nil && !result1
+//@   ensures[C19:not-bytes] !squoted(s) && !(len(s) > 0 && (s[0] == '\'' || s[len(s) - 1] == '\'')) ==> !result1 && result2 == nil
+
+// typedAs(s, v): v is an admissible typing of the query value s under the
+// documented rules (each line is one sentence of the documentation).
+//@ pure typedAs(s Str, v Iface) Bool = marshalable(v) && (dquoted(s) ==> typeis(v, "string")) && ((typeis(v, "int64") || typeis(v, "float64")) ==> numberCharset(s)) && (s == "true" ==> v == boxof(true, "bool")) && (s == "false" ==> v == boxof(false, "bool")) && (s == "null" ==> v == nil) && (squoted(s) ==> typeis(v, "[]byte")) && (typeis(v, "[]byte") ==> squoted(s)) && ((!dquoted(s) && !squoted(s) && !numberCharset(s) && s != "true" && s != "false" && s != "null") ==> v == boxof(s, "string"))
+
+// ParseQuery is total; on success the method is the non-empty trimmed path and
+// every parameter is a marshalable, correctly typed value of its query key.
+//@ func ParseQuery
+//@   requires req != nil && req.URL != nil
+//@   ensures[C19:method] result2 == nil ==> result0 != ""
+//@   ensures[C19:error-empty] result2 != nil ==> result0 == "" && result1 == nil
+//@   ensures[C19:typed] result2 == nil && result1 != nil ==> typeis(result1, "map[string]any") && forall(k string, in(unboxas(result1, "map[string]any"), k) ==> typedAs(formGet(req.Form, k), lookup(unboxas(result1, "map[string]any"), k)))
+//@   loop 1 invariant forall(k string, in(params, k) ==> typedAs(formGet(req.Form, k), lookup(params, k)))
+
+//@ func ParseBasic
+//@   requires req != nil && req.URL != nil
+//@   ensures[C19:method] result2 == nil ==> result0 != ""
+//@   ensures[C19:error-empty] result2 != nil ==> result0 == "" && result1 == nil
